@@ -35,17 +35,17 @@ NAMES = {
     "n_txt": "x.txt", "n_html": "x.html", "n_gif": "x.gif", "n_bin": "x.bin", "n_none": "noext",
     "n_gz": "x.txt.gz", "n_tgz": "x.tgz", "n_bz2": "x.txt.bz2", "n_up": "X.TXT", "n_unk": "x.qqq",
     "n_sp": "sp ace.txt", "n_url": "r#s%t&u+v;w.txt", "n_q": "q?m.txt", "n_pct": "p%41q.txt",
-    "n_hi": "caf\udce9.txt", "n_u8": "ü.txt", "n_dots": "a.b.c.txt",
+    "n_hi": "caf\udce9.txt", "n_u8": "ü.txt", "n_dots": "a.b.c.txt", "n_pict": "x.pict",
 }
-QUICK_NAMES = ["n_txt", "n_html", "n_bin", "n_none", "n_gz", "n_tgz", "n_bz2", "n_up", "n_sp", "n_url", "n_q", "n_hi"]
+QUICK_NAMES = ["n_txt", "n_html", "n_bin", "n_none", "n_gz", "n_tgz", "n_bz2", "n_up", "n_sp", "n_url", "n_q", "n_hi", "n_pict"]
 FAMS = ["G", "Gs", "GP", "GPs", "H", "Hs", "W", "GEM", "SP"]
 PROTO = {"G": "G", "Gs": "G", "GP": "GP", "GPs": "GP", "H": "H", "Hs": "H", "W": "W", "GEM": "GEM", "SP": "SP"}
 TLS = {"Gs", "GPs", "Hs", "GEM"}
 TIERS = {
     "quick": dict(names=QUICK_NAMES, kinds=["x", "bin", "text", "edge"], lists=["default", "full"], reps=[0],
-                  real_stride=40, wml_len=2),
+                  real_stride=40, wml=dict(len1=2, len2=1)),
     "thorough": dict(names=sorted(NAMES), kinds=["x", "bin", "text", "edge"], lists=["default", "full"], reps=[0, 1],
-                     real_stride=6, wml_len=3),
+                     real_stride=6, wml=dict(len1=3, len2=2)),
 }
 MC_CFG = """SPECIFICATION Spec
 CONSTANTS
@@ -61,6 +61,16 @@ INVARIANT BodyExact
 INVARIANT LenTruthful
 INVARIANT HeadIsGetHeaders
 INVARIANT TypeTruthful
+CHECK_DEADLOCK FALSE
+"""
+
+W_CFG = """SPECIFICATION Spec
+CONSTANTS
+  Alpha1 = {"x", "SP", "CR", "VT", "FF", "NEL", "LS", "LT", "AMP", "QUOT", "HI", "NUL"}
+  Len1 = %(len1)d
+  Alpha2 = {"x", "SP", "CR", "LS", "AMP"}
+  Len2 = %(len2)d
+INVARIANT Invertible
 CHECK_DEADLOCK FALSE
 """
 
@@ -161,6 +171,8 @@ def tokens_of(kind, n, rb):
                 line = ["x"] * 20 + ["SP", "AMP"] + ["x"] * 10 + ["LT"] + ["x"] * 28 + ["GT"]
                 if i % 4 == 1:
                     line += ["SP", "TAB"]
+                if i % 7 == 2:
+                    line = ["SP", "TAB"] + line        # leading white space must survive
                 if i % 3 == 0:
                     line += ["CR"]
             toks += line + ["LF"]
@@ -397,16 +409,13 @@ class Site:
                 info["server"] = type(e).__name__
             finally:
                 try:
-                    if tls:
-                        s.unwrap()
-                except Exception:
-                    pass
-                try:
                     s.shutdown(socket.SHUT_RDWR)
                 except Exception:
                     pass
                 s.close()
 
+        from pygopherd import logger
+        logger.log = w.logbuf.append
         del w.logbuf[:]
         th = threading.Thread(target=serve)
         th.start()
@@ -462,7 +471,7 @@ def _run_file(job):
     n, kind, tok, hl, rep, fams, transports, sched = (job[k] for k in ("n", "kind", "name", "hl", "rep", "fams", "transports", "sched"))
     site = _SITE
     row, rb, decs = _CTX["rows"][tok], _CTX["rb"], _CTX["decs"]
-    data, lines = concretise(tokens_of(kind, n, rb), rep)
+    data, lines = concretise(job["tokens"] if job.get("tokens") is not None else tokens_of(kind, n, rb), rep)
     isdec = job["dec"]
     name = NAMES[tok]
     site.put(name, gzip.compress(data, mtime=0) if isdec else data)
@@ -488,9 +497,10 @@ def _run_file(job):
             finally:
                 site.envsub.ENV.open_hook = None
             case = {"n": n, "kind": kind, "name": tok, "hl": hl, "fam": fam, "rep": rep, "transport": transport,
-                    "dec": isdec, "tls": fam in TLS, "sched": sched, "real_tls": transport == "real" and fam in TLS}
+                    "dec": isdec, "tokens": job.get("tokens"), "tls": fam in TLS, "needs_fd": isdec and (fam in TLS or fam == "W"), "sched": sched, "real_tls": transport == "real" and fam in TLS}
             traces.append({"id": "%s/%s/%d/%s/%s/%s/r%d%s" % (hl, tok, n, kind, fam, transport, rep,
-                                                             "/s" + "".join(map(str, sched)) if sched else ""),
+                                                             ("/s" + "".join(map(str, sched)) if sched else "")
+                                                             + ("/" + ",".join(job["tokens"]) if job.get("tokens") is not None else "")),
                            "init": init, "events": evs, "case": case, "extras": extras})
     return traces, site.short_reads[0]
 
@@ -523,8 +533,15 @@ def main(chk, replay=None):
     cfg2 = MC_CFG % dict(consts, sched="all", kinds=q(["bin"]), fams=q(["G"]), lists=q(["default"]))
     res2 = tlc.check_model("MC_C04", "MC_C04_loop_run.cfg", extra_files={"MC_C04_loop_run.cfg": cfg2, "MC_C04_Data.tla": data_tla},
                            dump=True, timeout=1500)
-    files, scheds = {}, []
+    res3 = tlc.check_model("MC_C04W", "MC_C04W_run.cfg", extra_files={"MC_C04W_run.cfg": W_CFG % t["wml"]}, dump=True, timeout=1500)
+    files, scheds, wfiles = {}, [], []
     try:
+        if res3["inv_violations"]:
+            chk.model_violation("MC_C04W", sorted(set(res3["inv_violations"])), res3["out"][-3000:])
+        for st in iter_dump_states(res3["dump"], wanted={"lines", "lastnl", "wml"}):
+            if st["wml"] == []:
+                wfiles.append((st["lines"], st["lastnl"]))
+        tlc.cleanup(res3)
         for r_, mod in ((res, "MC_C04"), (res2, "MC_C04(loop)")):
             if r_["inv_violations"]:
                 chk.model_violation(mod, sorted(set(r_["inv_violations"])), r_["out"][-3000:])
@@ -545,7 +562,7 @@ def main(chk, replay=None):
         with open(replay) as fp:
             c = json.load(fp)["case"]
         jobs.append(dict(n=c["n"], kind=c["kind"], name=c["name"], hl=c["hl"], rep=c.get("rep", 0), fams=[c["fam"]],
-                         transports=[c["transport"]], sched=c.get("sched") or [], dec=c["dec"]))
+                         transports=[c["transport"]], sched=c.get("sched") or [], dec=c["dec"], tokens=c.get("tokens")))
     else:
         k = 0
         for (n, kind, tok, hl), v in sorted(files.items()):
@@ -554,6 +571,15 @@ def main(chk, replay=None):
                 transports = ["mock"] + (["real"] if (v["dec"] or k % t["real_stride"] == 0) else [])
                 jobs.append(dict(n=real_size(n, 3, rb), kind=kind, name=tok, hl=hl, rep=rep, fams=sorted(v["fams"]),
                                  transports=transports, sched=[], dec=v["dec"]))
+        for lines_, lastnl in sorted(wfiles, key=lambda x: json.dumps(x)):
+            toks = []
+            for i_, ln in enumerate(lines_):
+                toks += [r_["c"] for r_ in ln for _ in range(r_["n"])]
+                if i_ < len(lines_) - 1 or lastnl:
+                    toks.append("LF")
+            for tok in ("n_txt", "n_none"):
+                jobs.append(dict(n=len(toks), kind="tlc-lines", name=tok, hl="default", rep=0, fams=["W"], transports=["mock"],
+                                 sched=[], dec=False, tokens=toks))
         scheds.sort()
         for n, h in scheds:
             jobs.append(dict(n=real_size(n, 3, rb), kind="bin", name=t["names"][0], hl="default", rep=0, fams=["G", "GP"],
@@ -584,17 +610,20 @@ def main(chk, replay=None):
         raise core.MachineryError("C04: no document was delivered at all")
     wml = sum(1 for e in fetches if e["wmlframe"])
     cov = {
-        "states": res["distinct"] + res2["distinct"], "transitions": res["generated"] + res2["generated"], "exhaustive": True,
+        "states": res["distinct"] + res2["distinct"] + res3["distinct"],
+        "transitions": res["generated"] + res2["generated"] + res3["generated"], "exhaustive": True,
         "traces_validated_against_impl": tv["accepted"], "traces_rejected": len(tv["rejected"]),
         "evaluations": len(fetches), "distinct_nontrivial": nontrivial,
         "rule": "cases = every 'done' state of MC_C04 (9 size classes around multiples of the block x %d content classes x %d "
                 "name classes x %d handler lists x 9 request families; HTTP/WAP families fetched with GET and HEAD) x %d "
-                "representative byte choice(s), plus every read-size schedule of the loop model (%d) imposed on the real copy loop; "
+                "representative byte choice(s), plus every read-size schedule of the loop model (%d) imposed on the real copy loop, plus "
+                "every small text file of MC_C04W fetched through WAP; "
                 "non-trivial = traces in which a GET delivered a body equal to the file or a well-framed WML conversion"
                 % (len(t["kinds"]), len(t["names"]), len(t["lists"]), len(t["reps"]), len(scheds)),
         "samples": [{"id": tr["id"], "events": [{k_: v_ for k_, v_ in e.items() if k_ != "wml"} for e in tr["events"]]}
                     for tr in traces[:2] + traces[-1:]],
-        "checker_cmd": res["cmd"] + " ; " + res2["cmd"] + " ; " + tv["cmd"],
+        "checker_cmd": res["cmd"] + " ; " + res2["cmd"] + " ; " + res3["cmd"] + " ; " + tv["cmd"],
+        "wml_files_from_tlc": len(wfiles),
         "files_written": len(jobs), "short_reads_served": short_reads, "wml_conversions_lexed": wml,
         "real_socket_traces": sum(1 for tr in traces if tr["case"]["transport"] == "real"),
         "real_tls_traces": sum(1 for tr in traces if tr["case"]["real_tls"]),
